@@ -11,7 +11,8 @@ package main
 // All L steps are issued by one application goroutine, all peer steps by the peer
 // goroutine, concurrently and without waiting for each other (the peer ignores agency);
 // <gosched> = number of runtime.Gosched() calls injected at every hook event (schedule
-// perturbation).
+// perturbation); 99 = hold the receive loop after it took its token until the protocol has
+// been stopped (the stopping window).
 // out: H=<handled> E=<first error class> T=<local transitions of sent messages> W=<wire> | <events>
 //
 // op:  pair <proto> <gosched> | <c|s><t>.<v> ...      (C12)
@@ -27,11 +28,13 @@ import (
 	"strconv"
 	"strings"
 	"sync"
+	"sync/atomic"
 	"time"
 
 	"github.com/blinklabs-io/gouroboros/cbor"
 	"github.com/blinklabs-io/gouroboros/muxer"
 	"github.com/blinklabs-io/gouroboros/protocol"
+	"github.com/blinklabs-io/gouroboros/protocol/blockfetch"
 )
 
 func init() {
@@ -39,8 +42,37 @@ func init() {
 }
 
 type g3Step struct {
-	kind string // L P Q PX PG
+	kind string // L P Q PX PG A
 	s    *g3Sample
+	pad  int // L<t>.<v>@N: the message is padded so that its encoding is exactly N bytes
+	wait int // A: number of peer messages that must have been handled before the application goes on
+}
+
+// g3PaddedMsg builds a message of the sample's type whose CBOR encoding is exactly n bytes
+// (block-fetch MsgBlock only: the block body is opaque to the engine).
+func g3PaddedMsg(p *g3Proto, s *g3Sample, n int) protocol.Message {
+	if !strings.HasPrefix(p.Name, "blockfetch") || s.Type != blockfetch.MessageTypeBlock {
+		return nil
+	}
+	k := n - 16
+	if k < 0 {
+		k = 0
+	}
+	for tries := 0; tries < 64; tries++ {
+		m := blockfetch.NewMsgBlock(make([]byte, k))
+		d, err := cbor.Encode(m)
+		if err != nil {
+			return nil
+		}
+		if len(d) == n {
+			return blockfetch.NewMsgBlock(make([]byte, k))
+		}
+		k += n - len(d)
+		if k < 0 {
+			return nil
+		}
+	}
+	return nil
 }
 
 func g3ParseSteps(p *g3Proto, toks []string) ([]g3Step, bool) {
@@ -49,12 +81,32 @@ func g3ParseSteps(p *g3Proto, toks []string) ([]g3Step, bool) {
 		switch {
 		case t == "PX" || t == "PG":
 			out = append(out, g3Step{kind: t})
+		case t == "A":
+			// the application waits until every peer message listed so far has been handled
+			n := 0
+			for _, o := range out {
+				if o.kind == "P" || o.kind == "Q" {
+					n++
+				}
+			}
+			out = append(out, g3Step{kind: "A", wait: n})
 		case len(t) > 1 && (t[0] == 'L' || t[0] == 'P' || t[0] == 'Q'):
-			s := g3ParseSym(p, t[1:])
+			body, pad := t[1:], 0
+			if i := strings.IndexByte(body, '@'); i >= 0 {
+				n, err := strconv.Atoi(body[i+1:])
+				if err != nil || n < 1 || n > 4000000 || t[0] != 'L' {
+					return nil, false
+				}
+				body, pad = body[:i], n
+			}
+			s := g3ParseSym(p, body)
 			if s == nil {
 				return nil, false
 			}
-			out = append(out, g3Step{kind: t[:1], s: s})
+			if pad > 0 && g3PaddedMsg(p, s, pad) == nil {
+				return nil, false
+			}
+			out = append(out, g3Step{kind: t[:1], s: s, pad: pad})
 		default:
 			return nil, false
 		}
@@ -106,6 +158,10 @@ func g3RenderTrace(ev []g3Event, locals, peers []*g3Sample) (trace string, handl
 					sym = symStr(queued[nQd])
 				}
 				nQd++
+			}
+			// the hook reports the type of the message the engine is really applying
+			if !strings.HasPrefix(sym, fmt.Sprintf("%d.", e.A)) {
+				sym = fmt.Sprintf("%d.0", e.A)
 			}
 			pendS = sym
 			tok = fmt.Sprintf("strans:%s:%d", sym, e.B)
@@ -250,18 +306,22 @@ func runEngOp(op string) string {
 	p := g3FindProto(hd[1])
 	role, ok := g3ParseRole(hd[2])
 	ngs, err := strconv.Atoi(hd[3])
-	if p == nil || !ok || err != nil || ngs < 0 || ngs > 50 {
+	if p == nil || !ok || err != nil || ngs < 0 || (ngs > 50 && ngs != 99) {
 		return "bad-op"
 	}
 	steps, ok := g3ParseSteps(p, strings.Fields(parts[1]))
 	if !ok {
 		return "bad-op"
 	}
-	var locals, peers []g3Step
+	var locals, peers, script []g3Step
 	for _, s := range steps {
-		if s.kind == "L" {
+		switch s.kind {
+		case "L":
 			locals = append(locals, s)
-		} else {
+			script = append(script, s)
+		case "A":
+			script = append(script, s)
+		default:
 			peers = append(peers, s)
 		}
 	}
@@ -269,18 +329,59 @@ func runEngOp(op string) string {
 		return "bad-op"
 	}
 	var perturb func(string)
-	if ngs > 0 {
+	var fx *g3Fixture
+	var fxp atomic.Pointer[g3Fixture]
+	if ngs == 99 {
+		// "stopping window" schedule: the receive loop, having just taken its ready token, is held
+		// until the protocol has been stopped (or for at most 300 ms), so that it resumes with a
+		// message in its queue AND a closed stop channel.  Affects only which schedule is seen.
+		perturb = func(kind string) {
+			if f := fxp.Load(); kind == "rtok" && f != nil {
+				f.waitFor(300*time.Millisecond, func(ev []g3Event, _ []uint8) bool {
+					for _, e := range ev {
+						if e.Kind == "stop" {
+							return true
+						}
+					}
+					return false
+				})
+			}
+		}
+	} else if ngs > 0 {
 		perturb = func(string) { g3Gosched(ngs) }
 	}
-	fx := newG3Fixture(p, role, g3FixOpts{perturb: perturb, slowTimers: true})
+	fx = newG3Fixture(p, role, g3FixOpts{perturb: perturb, slowTimers: true})
+	fxp.Store(fx)
 	defer fx.close()
 	attempts, handles, wantErr, _ := g3Predict(p, role, locals, peers)
 	var wg sync.WaitGroup
 	wg.Add(2)
 	go func() {
 		defer wg.Done()
-		for _, s := range locals {
-			if err := fx.P.SendMessage(s.s.Make()); err != nil {
+		for _, s := range script {
+			if s.kind == "A" {
+				want := s.wait
+				fx.waitFor(g3Deadline, func(ev []g3Event, _ []uint8) bool {
+					n := 0
+					for _, e := range ev {
+						if e.Kind == "handled" {
+							n++
+						}
+						if e.Kind == "stop" {
+							return true
+						}
+					}
+					return n >= want
+				})
+				continue
+			}
+			var m protocol.Message
+			if s.pad > 0 {
+				m = g3PaddedMsg(p, s.s, s.pad)
+			} else {
+				m = s.s.Make()
+			}
+			if err := fx.P.SendMessage(m); err != nil {
 				return
 			}
 		}
@@ -376,7 +477,15 @@ func runEngOp(op string) string {
 		ps = append(ps, s.s)
 	}
 	tr, handled, firstErr, strans := g3RenderTrace(ev, ls, ps)
-	return fmt.Sprintf("H=%s E=%s T=%s W=%s | %s", joinOrDash(handled), firstErr, joinOrDash(strans), wireStr(wire), tr)
+	fx.mu.Lock()
+	empty := 0
+	for _, n := range fx.segLens {
+		if n == 0 {
+			empty++
+		}
+	}
+	fx.mu.Unlock()
+	return fmt.Sprintf("H=%s E=%s T=%s W=%s Z=%d | %s", joinOrDash(handled), firstErr, joinOrDash(strans), wireStr(wire), empty, tr)
 }
 
 // ---------------------------------------------------------------- generator (C11)
@@ -393,6 +502,9 @@ func g3Walkers(skipVotes bool) []g3Walker {
 	for i := range protos {
 		if skipVotes && protos[i].Name == "leiosvotes" {
 			continue // its state ids depend on a counter the hook events do not carry
+		}
+		if strings.HasSuffix(protos[i].Name, "-v20") {
+			continue // same engine and state map as localtxmonitor; only C16 looks at the version
 		}
 		for _, role := range []protocol.ProtocolRole{protocol.ProtocolRoleClient, protocol.ProtocolRoleServer} {
 			ws = append(ws, g3Walker{&protos[i], role, g3Explore(&protos[i], role)})
@@ -494,6 +606,9 @@ func genC11(r *Rand, n int, tier string, emit func(string)) {
 			}
 		}
 		gs := Pick(r, 0, 0, 1, 3, 10)
+		if (mut == 2 || mut == 3) && r.Chance(1, 2) {
+			gs = 99 // stopping window: queued messages meet a stopped protocol
+		}
 		emit(fmt.Sprintf("eng %s %s %d | %s", w.p.Name, g3RoleName(w.role), gs, strings.Join(toks, " ")))
 	}
 }
